@@ -54,7 +54,7 @@ func NewStdoutTraceWriter() TraceWriter {
 		sendWriter:    sendWriter,
 		receiveWriter: receiveWriter,
 	}
-	trace := func(dec *json.Decoder, action string) {
+	trace := func(dec *json.Decoder, r io.Reader, action string) {
 		for {
 			var j json.RawMessage
 			err := dec.Decode(&j)
@@ -64,10 +64,13 @@ func NewStdoutTraceWriter() TraceWriter {
 
 			fmt.Printf("%v: %v\n", action, string(j))
 		}
+		// What cannot be decoded is no longer traced, but the pipe is still read: the transports write
+		// to it from within their Send and Receive, and would otherwise block there for good
+		_, _ = io.Copy(io.Discard, r)
 	}
 
-	go trace(receiveDecoder, "receive")
-	go trace(sendDecoder, "send")
+	go trace(receiveDecoder, receiveReader, "receive")
+	go trace(sendDecoder, sendReader, "send")
 
 	return &tw
 }
